@@ -271,19 +271,21 @@ PROPS = {
         unreached=["MetricAccumulatorEntry's Entry::write (names, labels as dimensions, units)", "reporter task", "unit mapping"],
     ),
     "C17": dict(
-        verus=[("globalsink", {"tl": "contract", "refute_with": [{"tl": "bare"}]})],
+        verus=[("globalsink", {"tl": "contract", "refute_with": [{"tl": "bare"}]}), ("globalguards", {})],
         technique="Verus contracts on the real routing functions inside the global_entry_sink! macro body (get_test_sink, try_sink, try_append, attach, set_test_sink_for_tokio_runtime, the thread-local set_test_sink), process-global state read and written through stand-in accessors",
         level_text="Deductive proof (Verus/z3), for every state of the four places a destination can be installed: an entry appended through a global sink goes to exactly one destination - the calling thread's test sink if one is installed, "
                    "otherwise the current runtime's test sink, otherwise the attached sink (the entry is moved into the one append) - and with none of these try_append hands the entry back unchanged; try_sink returns that same choice. "
                    "Attaching while a sink is attached, installing a runtime test sink on a runtime that has one, and installing a thread-local test sink on a thread that has one, never return normally (the documented panic, after the lock guard is released) and never overwrite what is installed "
                    "(the store / insert stand-ins carry `nothing is installed under this key` as a precondition); a first attach / install stores the given sink. "
-                   "NOT decided: removing test sinks and the guards / handle that restore routing on drop (flush before detach), anything across threads or runtimes.",
+                   "Handles and guards: dropping an attach handle runs its detach-and-join function exactly when it still holds one (a forgotten handle holds none); the thread-local guard's drop runs its clear function; "
+                   "the runtime guard's drop removes exactly its own runtime's entry. "
+                   "NOT decided: that the detach function installed by attach flushes before detaching (BackgroundQueue's join handle: C05), anything across threads or runtimes.",
         level_note="Trusted: Verus + z3. The functions are located inside the macro_rules! token tree and extracted verbatim; `$crate::__test_util! { .. }` is expanded to its argument (feature test-util on), and the five accessors of "
                    "process-global state (thread-local cell, tokio Handle::try_current, the per-runtime map behind a Mutex, the RwLock holding the attached sink) are rewritten (M2-M5, M8, exact text) to stand-ins that return one thread's snapshot; `panic!(..)` is rewritten to a call that never returns (M6, M9; Verus would demand unreachability), "
                    "`*write = Some((..))` to a store method carrying the no-overwrite obligation (M10), `$crate::` paths of the guard type dropped (M7).",
         explanation="global sink routing precedence",
         assumptions=["the accessors return what is installed at the moment of the call (one thread's view; no concurrent install / remove)"],
-        unreached=["AttachHandle's drop (join) and forget", "guards (ThreadLocalTestSinkGuard, runtime guard) and their Drop", "without the test-util feature (the test-sink branch is compiled out)"],
+        unreached=["what the detach / clear function pointers do when called (set by the macro: SINK.write().take(), set_test_sink(None))", "without the test-util feature (the test-sink branch is compiled out)"],
     ),
     "C18": dict(
         verus=[("timers", {})],
